@@ -280,14 +280,14 @@ theorem closed {TokP : Tok → Prop} {T : Table} (hT : TableT T) :
         · obtain ⟨hp1, hp2⟩ := paramList_of_accepts e _ l hat
           exact ⟨⟨c, hc, rfl, e, hce, hp1, hp2⟩, trivial⟩
   dry := by
-    intro f ld v st' pl hf hcna
+    intro f ld n st' pl hf hcna
     -- nothing is stored when `add` is off; the pending slot stays a slot of the definition
-    obtain ⟨h1, h2, h3⟩ := cna_slots f.d ld f.st .test v false true st' pl hf.cur hcna
+    obtain ⟨h1, h2, h3⟩ := cna_slots f.d ld f.st .test (.test n) false true st' pl hf.cur hcna
     have hsame : st'.arguments = f.st.arguments ∧ st'.extraArgs = f.st.extraArgs := by
-      obtain ⟨_, hc⟩ := Safe.checkNextArg_cases f.d ld f.st .test v false true st' pl hcna
+      obtain ⟨_, hc⟩ := Safe.checkNextArg_cases f.d ld f.st .test (.test n) false true st' pl hcna
       rcases hc with ⟨c, e, _, _, hst, _⟩ | ⟨_, hscan⟩
       · subst hst; exact ⟨rfl, by simp [setArg]⟩
-      · rcases Safe.scan_cases f.d.name ld true false .test v f.st _ _ st' pl hscan with ⟨h1, _, _⟩ | ⟨pre, a, post, _, _, hit⟩
+      · rcases Safe.scan_cases f.d.name ld true false .test (.test n) f.st _ _ st' pl hscan with ⟨h1, _, _⟩ | ⟨pre, a, post, _, _, hit⟩
         · subst h1; exact ⟨rfl, rfl⟩
         · cases hit with
           | testlistAdd hr ht htt hadd args happ hst hpl => cases hadd
